@@ -218,7 +218,9 @@ def rule_z1(repo):
 def rule_z2_z3(repo):
     z2 = RuleResult('C06.Z2', 'recorded side constraints are asserted to the solver on every path that returns it', floor=1)
     z3r = RuleResult('C06.Z3', 'the conclusion reaches the solver only negated', floor=1)
+    from ..normalize import split_table_loops, as_func
     f = repo.func(Z3, 'solve_core')
+    f = as_func(f, split_table_loops(f.node))       # assumptions and conclusion handled by one loop over a table of cases
     cfg = cfg_of(f.node)
     flow = flow_of(f.node)
     s = f.params()[0]
